@@ -93,15 +93,30 @@ pub struct TapeRng<const T: usize> {
     /// rejected whenever the range is not a power of two), so loops over a TapeRng with an
     /// all-ones tail end within T+1 iterations.
     pub tail: u64,
+    /// how the stream was consumed: calls of next_u32 / next_u64 / fill_bytes and bytes filled.
+    /// "Equal generator states" includes these, so an adapter that re-implements fill_bytes with
+    /// next_u64 (instead of forwarding it) is visible.
+    pub calls32: usize,
+    pub calls64: usize,
+    pub calls_fill: usize,
+    pub bytes_filled: usize,
 }
 
 impl<const T: usize> TapeRng<T> {
     #[cfg(kani)]
     pub fn any() -> Self {
-        TapeRng { tape: kani::any(), cursor: 0, tail: u64::MAX }
+        TapeRng { tape: kani::any(), cursor: 0, tail: u64::MAX, calls32: 0, calls64: 0, calls_fill: 0, bytes_filled: 0 }
+    }
+    /// equal generator states (the tape itself is immutable; comparing it would be a memcmp loop)
+    pub fn same_state(&self, o: &Self) -> bool {
+        self.cursor == o.cursor
+            && self.calls32 == o.calls32
+            && self.calls64 == o.calls64
+            && self.calls_fill == o.calls_fill
+            && self.bytes_filled == o.bytes_filled
     }
     pub fn from_words(tape: [u64; T]) -> Self {
-        TapeRng { tape, cursor: 0, tail: u64::MAX }
+        TapeRng { tape, cursor: 0, tail: u64::MAX, calls32: 0, calls64: 0, calls_fill: 0, bytes_filled: 0 }
     }
     fn word(&mut self) -> u64 {
         let w = if self.cursor < T { self.tape[self.cursor] } else { self.tail };
@@ -112,17 +127,22 @@ impl<const T: usize> TapeRng<T> {
 
 impl<const T: usize> RngCore for TapeRng<T> {
     fn next_u32(&mut self) -> u32 {
+        self.calls32 += 1;
         self.word() as u32
     }
     fn next_u64(&mut self) -> u64 {
+        self.calls64 += 1;
         self.word()
     }
     fn fill_bytes(&mut self, dst: &mut [u8]) {
+        // one tape word per (started) 4 bytes: a consumption pattern of its own, like a block generator
+        self.calls_fill += 1;
+        self.bytes_filled += dst.len();
         let mut i = 0;
         while i < dst.len() {
-            let w = self.next_u64().to_le_bytes();
+            let w = (self.word() as u32).to_le_bytes();
             let mut j = 0;
-            while j < 8 && i < dst.len() {
+            while j < 4 && i < dst.len() {
                 dst[i] = w[j];
                 i += 1;
                 j += 1;
